@@ -149,7 +149,7 @@ def evaluate(ctx, tag, cases, known):
 
 def classify(ctx, which, live, res, known):
     """-> dict with the lists the verdict step needs."""
-    out = dict(run_bad=[], rejected=[], noreexec=[], converges=[], need={}, unknown_flag=[], accepted=0, none=[])
+    out = dict(run_bad=[], rejected=[], noreexec=[], converges=[], need={}, unknown_flag=[], accepted=0, none=[], not_wf=[])
     for c, r in zip(live, res):
         if r is None:
             out["none"].append(c)
@@ -158,7 +158,9 @@ def classify(ctx, which, live, res, known):
             if r[0] != [0] or r[1] != [0]:
                 out["run_bad"].append((c, r))
             continue
-        acc, need, nore, conv0, mneed, convk = r
+        acc, need, nore, conv0, mneed, convk, wf = r
+        if wf != [0]:
+            out["not_wf"].append((c, r))
         if acc == [0]:
             out["accepted"] += 1
         else:
@@ -246,6 +248,13 @@ def verdicts(ctx, which, cases, cl, known, tag=None):
             ctx.violation(replay_obj(ctx, c, "monitor-false", "mon_converges false: %s%s; %d failing recoveries" % (why, extra, len(lst)), r,
                                      dict(failing_monitor="mon_converges", codes=r[5], needs_flags=[FLAGS[f] for f in r[4]],
                                           failing_cases=[x[0]["id"] for x in lst[:30]])), tag=tag)
+    if which == "C10":
+        noisy = [c for c in cases if c["kind"] == "rec" and not is_hang(c) and ((c.get("dist") or {}).get("after_release") or (c.get("dist") or {}).get("leak"))]
+        if noisy:
+            noisy.sort(key=size)
+            c = noisy[0]
+            ctx.violation(replay_obj(ctx, c, "not-quiescent", "the recovered plan was not quiescent when Wait returned: %s; %d such recoveries"
+                                     % (c.get("note", ""), len(noisy)), None, dict(failing_cases=[x["id"] for x in noisy[:30]])), tag=tag)
     if which == "C09":
         hangs = [c for c in cases if c["kind"] == "rec" and is_hang(c)]
         if hangs:
@@ -264,6 +273,13 @@ def verdicts(ctx, which, cases, cl, known, tag=None):
         c, r, why = rej[0]
         ctx.violation(replay_obj(ctx, c, "correspondence-broken", "corr_resume_accept: %s; the monitors hold on all %d rejected recoveries"
                                  % (why, len(rej)), r, dict(broken="corr_resume_accept: " + why, rejected_cases=[x[0]["id"] for x in rej[:30]])),
+                      nofail=True, tag=tag)
+    if cl["not_wf"]:
+        cl["not_wf"].sort(key=lambda x: size(x[0]))
+        c, r = cl["not_wf"][0]
+        ctx.violation(replay_obj(ctx, c, "crash-image-not-well-formed", "premise of c09_no_reexecution broken on a real crash image: ImgWf.img_wf is false "
+                                 "(crash image: %s); %d such images" % ((c["observed"].get("crash_image") or "")[:600], len(cl["not_wf"])), r,
+                                 dict(broken="img_wf (crash image of a Running plan)", failing_cases=[x[0]["id"] for x in cl["not_wf"][:30]])),
                       nofail=True, tag=tag)
     if cl["none"]:
         ctx.violation(dict(kind="model-evaluation-failed", broken="a cases_<k>.v shard produced no report", cases=[c["id"] for c in cl["none"][:10]]),
@@ -295,6 +311,7 @@ def write_evidence(ctx, which, cases, live, res, cl, known, rep, timing):
         accepted_by_resumed_automaton=cl["accepted"], rejected=len(cl["rejected"]),
         monitor_false=dict(mon_noreexec=len(cl["noreexec"]), mon_converges_after_known_flags=len(cl["converges"])),
         recoveries_needing_flag={k: len(v) for k, v in sorted(cl["need"].items())},
+        crash_images_not_well_formed=len(cl["not_wf"]),
         known_flags=sorted(known),
         hangs=sum(1 for c in recs if is_hang(c)),
         something_left_running=sum(1 for c in recs if (c.get("dist") or {}).get("running_left")),
